@@ -1,28 +1,48 @@
 /-
-  C14 — property theorems for the crash-safety part: for every initial directory, every
+  C14 — property theorems for the crash-safety part: for every initial directory (everything any
+  sequence of earlier crashes, of this or of the earlier rename-based protocol, can leave behind), every
   number of steps and every crash instant.
+
+  History: on the pinned tree `dump_dict` moved F to F.bak before writing (and deleted an existing backup
+  first).  The model of that protocol satisfied the property only after the first completed dump of a job
+  object; the excluded point was run on the real code: a job restarted into ⟨partial F, complete B⟩ destroys the
+  complete backup during its first dump (defect D40, `restart_first_dump_unprotected` of the old model).
+  The code was repaired (write a temporary file, `os.replace`); the model below is the repaired protocol and
+  the theorems hold at full strength, the first dump of a restarted job included.
 -/
 import RenoVerif.Model.DumpProto
 
 namespace RenoVerif.Dump
 
-/-- whatever the directory looked like before, a completed dump leaves exactly
-    `F = complete k`, `B = absent` -/
-theorem dumpFinal_eq (k : Nat) (d : Dir) : dumpFinal k d = ⟨.complete k, .absent⟩ := by
-  obtain ⟨f, b⟩ := d
-  cases f <;> cases b <;> simp [dumpFinal, dumpOps, apply, FileSt.exists]
+/-- whatever the directory looked like before, a completed dump leaves `F = complete k`, no backup, no temporary -/
+theorem dumpFinal_eq (k : Nat) (d : Dir) : dumpFinal k d = ⟨.complete k, .absent, .absent⟩ := by
+  obtain ⟨f, b, t⟩ := d
+  cases b <;> simp [dumpFinal, dumpOps, apply, FileSt.exists]
 
-/-- during the dump of step `k+1` that starts from the directory left by the completed dump
-    of step `k`, every visible directory state holds a complete file of step ≥ k -/
+/-- **no dump ever loses the newest complete result**: if a complete result file of step ≥ j exists when the dump of
+    step k ≥ j starts, every visible state of that dump holds a complete result file of step ≥ j -/
+theorem dump_preserves (k j : Nat) (hjk : j ≤ k) (d : Dir) (h : d.good j = true) :
+    ∀ d' ∈ dumpTrace k d, d'.good j = true := by
+  obtain ⟨f, b, t⟩ := d
+  intro d' hd'
+  cases hb : b.exists <;>
+    simp [dumpTrace, dumpOps, traceOps, apply, hb] at hd' <;>
+    rcases hd' with hd' | hd' | hd' | hd' | hd' <;> (try rcases hd' with hd' | hd') <;>
+    subst_vars <;> simp_all [Dir.good, FileSt.goodFor]
+
+/-- in particular a result left by an earlier run survives the first dump of a restarted job -/
+theorem dump_preserves_any (k : Nat) (d : Dir) (h : d.hasComplete = true) :
+    ∀ d' ∈ dumpTrace k d, d'.hasComplete = true :=
+  dump_preserves k 0 (Nat.zero_le k) d h
+
+/-- during the dump of step `k+1` that starts from the directory left by the completed dump of step `k`, every
+    visible directory state holds a complete file of step ≥ k -/
 theorem dump_step_safe (k : Nat) :
-    ∀ d' ∈ dumpTrace (k+1) ⟨.complete k, .absent⟩, d'.good k = true := by
-  intro d' h
-  simp [dumpTrace, dumpOps, traceOps, apply, FileSt.exists] at h
-  rcases h with h | h | h | h | h <;> subst h <;> simp [Dir.good, FileSt.goodFor]
+    ∀ d' ∈ dumpTrace (k+1) ⟨.complete k, .absent, .absent⟩, d'.good k = true :=
+  dump_preserves (k+1) k (Nat.le_succ k) _ (by simp [Dir.good, FileSt.goodFor])
 
-/-- states of a run: after the first dump every later dump starts from `⟨complete, absent⟩` -/
 theorem runTrace_safe (n k : Nat) :
-    ∀ p ∈ runTrace n (k+1) ⟨.complete k, .absent⟩, p.2.good (p.1 - 1) = true := by
+    ∀ p ∈ runTrace n (k+1) ⟨.complete k, .absent, .absent⟩, p.2.good (p.1 - 1) = true := by
   induction n generalizing k with
   | zero => intro p h; simp [runTrace] at h
   | succ n ih =>
@@ -33,18 +53,32 @@ theorem runTrace_safe (n k : Nat) :
     · rw [dumpFinal_eq] at h
       exact ih (k+1) p h
 
-/-- **Crash safety.**  For EVERY initial directory `d0` (including everything an earlier crash
-    can leave behind), every number `n` of dumps and every instant: once the first dump of the
-    job (step `k0`) has completed, every visible directory state during a later dump of step
-    `k > k0` contains a complete result file of step `k` or `k-1`. -/
+/-- **Crash safety (full strength).**  For EVERY initial directory `d0`, every number `n` of dumps of a job whose
+    first dump has step `k0`, and every instant:
+    (a) during the first dump, a complete result file that was in the directory (left by an earlier run) is still there;
+    (b) during every later dump of step `k > k0`, a complete result file of step `k` or `k−1` of this job is there. -/
 theorem dump_crash_safe (d0 : Dir) (n k0 : Nat) :
-    ∀ p ∈ runTrace (n+1) k0 d0, k0 < p.1 → p.2.good (p.1 - 1) = true := by
-  intro p h hk
+    ∀ p ∈ runTrace (n+1) k0 d0,
+      (p.1 = k0 → d0.hasComplete = true → p.2.hasComplete = true) ∧ (k0 < p.1 → p.2.good (p.1 - 1) = true) := by
+  intro p h
   simp only [runTrace, List.mem_append, List.mem_map] at h
-  rcases h with ⟨d', _, rfl⟩ | h
-  · simp at hk
+  rcases h with ⟨d', hd', rfl⟩ | h
+  · exact ⟨fun _ hc => dump_preserves_any k0 d0 hc d' hd', fun hk => absurd hk (Nat.lt_irrefl _)⟩
   · rw [dumpFinal_eq] at h
-    exact runTrace_safe n k0 p h
+    refine ⟨fun hk => ?_, fun _ => runTrace_safe n k0 p h⟩
+    -- states of later dumps have step > k0
+    have : ∀ (m k : Nat) (d : Dir), ∀ q ∈ runTrace m k d, k ≤ q.1 := by
+      intro m
+      induction m with
+      | zero => intro k d q hq; simp [runTrace] at hq
+      | succ m ih =>
+        intro k d q hq
+        simp only [runTrace, List.mem_append, List.mem_map] at hq
+        rcases hq with ⟨_, _, rfl⟩ | hq
+        · exact Nat.le_refl _
+        · exact Nat.le_of_succ_le (ih (k+1) _ q hq)
+    have := this n (k0+1) _ p h
+    omega
 
 /-- the step index of every state of a run lies in the dumped range -/
 theorem runTrace_steps (n k : Nat) (d : Dir) : ∀ p ∈ runTrace n k d, k ≤ p.1 ∧ p.1 < k + n := by
@@ -57,21 +91,20 @@ theorem runTrace_steps (n k : Nat) (d : Dir) : ∀ p ∈ runTrace n k d, k ≤ p
     · simp
     · have := ih (k+1) _ p h; omega
 
-/-- outside the property's claim, recorded: a job RESTARTED into `⟨partial, complete j⟩` (what a
-    crash inside `savez` leaves) removes the good backup during its first dump before anything
-    new is complete. -/
-theorem restart_first_dump_unprotected (j i : Nat) :
-    ∃ d' ∈ dumpTrace 1 ⟨.part i, .complete j⟩, d'.good 0 = false := by
-  refine ⟨⟨.part i, .absent⟩, ?_, ?_⟩
-  · simp [dumpTrace, dumpOps, traceOps, apply, FileSt.exists]
-  · simp [Dir.good, FileSt.goodFor]
+/-- the temporary file is never relied upon: a directory whose only complete archive is a stale temporary file is
+    (rightly) not counted as holding a result -/
+example : (⟨.part 3, .absent, .complete 9⟩ : Dir).hasComplete = false := by decide
 
--- non-vacuity: a concrete 3-step run from a dirty directory has 3·(≥4) states, all later ones good
-example : (runTrace 3 1 ⟨.part 7, .complete 6⟩).length = 16 := by decide
-example : ((runTrace 3 1 ⟨.part 7, .complete 6⟩).filter fun p => 1 < p.1).all
+-- non-vacuity: a concrete 3-step run from the directory a crash of the OLD protocol leaves behind
+example : (runTrace 3 1 ⟨.part 7, .complete 6, .absent⟩).length = 13 := by decide
+example : ((runTrace 3 1 ⟨.part 7, .complete 6, .absent⟩).all fun p => p.2.hasComplete) = true := by decide
+example : ((runTrace 3 1 ⟨.part 7, .complete 6, .absent⟩).filter fun p => 1 < p.1).all
     (fun p => p.2.good (p.1 - 1)) = true := by decide
-example : dumpTrace 2 ⟨.complete 1, .absent⟩ =
-    [⟨.complete 1, .absent⟩, ⟨.absent, .complete 1⟩, ⟨.part 2, .complete 1⟩,
-     ⟨.complete 2, .complete 1⟩, ⟨.complete 2, .absent⟩] := by decide
+example : dumpTrace 2 ⟨.complete 1, .absent, .absent⟩ =
+    [⟨.complete 1, .absent, .absent⟩, ⟨.complete 1, .absent, .part 2⟩, ⟨.complete 1, .absent, .complete 2⟩,
+     ⟨.complete 2, .absent, .absent⟩] := by decide
+example : dumpTrace 1 ⟨.part 7, .complete 6, .part 7⟩ =
+    [⟨.part 7, .complete 6, .part 7⟩, ⟨.part 7, .complete 6, .part 1⟩, ⟨.part 7, .complete 6, .complete 1⟩,
+     ⟨.complete 1, .complete 6, .absent⟩, ⟨.complete 1, .absent, .absent⟩] := by decide
 
 end RenoVerif.Dump
